@@ -573,6 +573,44 @@ def _encode_order(checker, network, method, secret, peer_secret, clears):
 	ctx.count(f'order:{network}:{method}:{len(clears)}-in-a-row')
 
 
+def _twin_round(checker, rng):
+	"""A public key and its sign twin (bit 255 flipped: the point -A, canonical and of prime order whenever A is) in one process, in
+	both orders: each shared key is the definition computed for ITS OWN key, the two keys differ, and a message from sender A is not
+	decoded when the twin is named as the sender."""
+	from .c07 import ref_public_key
+	ctx = checker.ctx
+	for network in ('symbol', 'nem'):
+		for twin_first in (False, True):
+			secret, peer_secret = rng.bytes_(32), rng.bytes_(32)
+			public = ref_public_key(network, peer_secret)
+			twin = public[:31] + bytes([public[31] ^ 0x80])
+			order = [twin, public] if twin_first else [public, twin]
+			answers = [checker.shared_key(network, secret, key, 'shared key for a public key / its sign twin used one after the other != definition for that very key') for key in order]
+			if answers[0] == answers[1] and answers[0].startswith('ok '):
+				ctx.fail('property', f'{network}: a public key and its sign twin give the same shared key {answers[0][3:19]}..', {
+					'op': 'twin', 'args': {'network': network, 'secret': secret, 'public_key': order[0], 'twin': order[1]}})
+			if 'nem' == network:
+				salt = rng.bytes_(32)
+				for key in order:
+					checker.shared_key_deprecated(secret, key, salt)
+			ctx.count(f'twin:{network}:' + ('twin-first' if twin_first else 'key-first'))
+			# a message from `peer` decoded by `secret`: naming the twin as the sender must not decode it
+			clear = rng.bytes_(rng.choice([1, 20, 40]))
+			encoder = checker.encoders[network](checker.key_pair(network, peer_secret))
+			encoded = encoder.encode(checker.public_key_class(ref_public_key(network, secret)), clear)
+			for key in order:
+				decoded = key == public
+				if 'symbol' == network:
+					checker.try_decode_symbol(
+						'current', secret, key, encoded, f'ok 1 {hx(clear)}' if decoded else f'ok 0 {hx(encoded)}',
+						'message decoded against the sender key / its sign twin one after the other: wrong outcome for that very key')
+				else:
+					checker.try_decode_nem(
+						secret, key, 2, bytes(encoded.message), f'ok 1 {hx(clear)}' if decoded else None,
+						'NEM message decoded against the sender key / its sign twin', informative=not decoded)
+		checker.settle()
+
+
 def _order_round(checker, rng):
 	for network, methods in (('symbol', ('encode', 'encode_deprecated', 'delegation')), ('nem', ('encode', 'encode_deprecated'))):
 		for method in methods:
@@ -1116,6 +1154,8 @@ def run(ctx):
 	for _ in range(ctx.scale(4, 25)):
 		_delegation_round(checker, rng, everything)
 		checker.settle()
+	for _ in range(ctx.scale(3, 30)):
+		_twin_round(checker, rng)
 	for _ in range(ctx.scale(1, 6)):
 		_order_round(checker, rng)
 	_delegation_first_bytes(checker, rng, 'thorough' == ctx.tier)
@@ -1143,6 +1183,9 @@ def replay(ctx, payload):
 		checker.shared_key(args['network'], args['secret'], args['public_key'])
 	elif 'shared_key_deprecated' == name:
 		checker.shared_key_deprecated(args['secret'], args['public_key'], args['salt'])
+	elif 'twin' == name:
+		for key in (args['public_key'], args['twin']):
+			checker.shared_key(args['network'], args['secret'], key)
 	elif 'encode_order' == name:
 		_encode_order(checker, args['network'], args['method'], args['secret'], args['peer_secret'], args['clears'])
 	elif 'try_decode' == name:
